@@ -431,7 +431,8 @@ func runHistory(c *lib.Ctx, h history) {
 		return
 	}
 	if len(states) == 0 {
-		lib.Infra("history %s produced no persisted state", h)
+		c.Fail("", h, "history %s: persist / close+reopen succeeded but no persisted state exists", h)
+		return
 	}
 	j := &judge{c: c, s: s, states: states, h: h}
 	j.run()
